@@ -23,6 +23,12 @@ theorem C20_filter_fact : observerFilterRecognised = true := by decide
 already holds — a snapshot kept unfiltered while it was in system mode, say — is handed to the newcomer -/
 theorem C20_subscribe_fact : Facts.observerSubscribe = ["obr.onTableStateUpdated = fn", "return nil"] := by decide
 
+/-- attaching an actor to an adapter only stores the two references (regenerated from actor/table_engine_adapter.go and
+actor/actor.go): nothing is delivered at that moment — in particular not the table the adapter was built from, which is
+the engine's own -/
+theorem C20_attach_fact : Facts.adapterSetActor = ["tea.actor = a"] ∧
+    Facts.actorSetAdapter = ["tc.SetActor(a)", "a.tableAdapter = tc", "return nil"] := by decide
+
 /-- the adapter marshals the table, unmarshals into a fresh value and forwards *that* (regenerated) -/
 theorem C20_adapter_fact :
     Facts.adapterUpdate =
